@@ -391,8 +391,9 @@ def overflow_tags(rows_list, args, tname, cls):
     if (prec is not None and any(v > 2 ** prec and v % 2 == 1 for v in ints)) or (prec is None and max(ints) > hi):
         out.append("coefficient_or_denominator_not_representable_in_T")
     # the two largest magnitudes among the bounds of the operands and the integers of the arguments
-    vals = sorted([big] + ints, reverse=True)[:2]
-    if type_class(tshort) == "native_int" and (vals[0] > hi or vals[0] + vals[1] > hi or (vals[1] >= 2 and vals[0] * vals[1] > hi)):
+    # (integers that T cannot represent at all are the other class, coefficient_or_denominator_not_representable_in_T)
+    vals = (sorted([v for v in [big] + ints if v <= hi], reverse=True) + [1, 1])[:2]
+    if type_class(tshort) == "native_int" and (vals[0] + vals[1] > hi or (vals[1] >= 2 and vals[0] * vals[1] > hi)):
         out.append("native_int_product_overflows_T")
     if big * 2 >= hi or max(ints) * 2 >= hi:
         out.append("bound_ge_half_max_of_T")
